@@ -6,6 +6,7 @@ package aucoalesce
 
 import (
 	"errors"
+	"os/user"
 	"sort"
 	"strconv"
 	"strings"
@@ -600,15 +601,6 @@ func VH_ConcurrentResolve() {
 	n := vParam("threads", 2)
 	events := make([]*Event, n)
 	digests := make([]string, n)
-	// sequential reference: each group coalesced and resolved on its own, against fresh caches
-	for i := 0; i < n; i++ {
-		g := vParseGroup(vGroups[i%len(vGroups)], "9"+strconv.Itoa(i))
-		e, _ := CoalesceMessages(g)
-		if e != nil {
-			ResolveIDsFromCaches(e, NewUserCache(1000000000*60), NewGroupCache(1000000000*60))
-		}
-		digests[i] = vEventDigest(e) + "|N" + strconv.Itoa(len(e.User.Names)) + e.Summary.Actor.Primary
-	}
 	for i := 0; i < n; i++ {
 		i := i
 		g := vParseGroup(vGroups[i%len(vGroups)], "9"+strconv.Itoa(i)) // different messages per thread
@@ -621,6 +613,15 @@ func VH_ConcurrentResolve() {
 		})
 	}
 	vJoin()
+	// sequential reference (computed after the concurrent phase, so that the threads start on cold caches): each group coalesced and resolved on its own, against fresh caches
+	for i := 0; i < n; i++ {
+		g := vParseGroup(vGroups[i%len(vGroups)], "9"+strconv.Itoa(i))
+		e, _ := CoalesceMessages(g)
+		if e != nil {
+			ResolveIDsFromCaches(e, NewUserCache(1000000000*60), NewGroupCache(1000000000*60))
+		}
+		digests[i] = vEventDigest(e) + "|N" + strconv.Itoa(len(e.User.Names)) + e.Summary.Actor.Primary
+	}
 	for i := 0; i < n; i++ {
 		e := events[i]
 		vAssert(e != nil, "C15/concurrent-coalesce-failed")
@@ -811,4 +812,67 @@ func VH_NormSelection() {
 	check(d1, a1, w1)
 	check(d2, a2, w2)
 	vAssert(a3 == a1, "C20/normalisation-selection-depends-on-history")
+}
+
+// ---- C15: ID resolution of users and of groups do not leak into each other --------------------
+
+func init() { vEntries["VH_ResolveIsolation"] = VH_ResolveIsolation }
+
+// VH_ResolveIsolation: uid and gid carry the same numbers with different names. Whatever was
+// resolved or hard-coded before (users first or groups first, another event in between), a uid gets
+// the user's name and a gid the group's name; separately constructed caches share nothing.
+func VH_ResolveIsolation() {
+	vInstallTableImage()
+	line := "1300|arch=c000003e syscall=2 success=yes exit=0 a0=1 items=0 ppid=1 pid=2 auid=1000 uid=1000 gid=1000 euid=33 egid=33 suid=33 sgid=1000 ses=3 comm=\"x\" exe=\"/bin/x\" key=(null)"
+	e, _ := CoalesceMessages(vParseGroup([]string{line}, "91"))
+	vAssert(e != nil, "C15/group-does-not-parse")
+	if e == nil {
+		return
+	}
+	check := func(ev *Event, label string) {
+		want := map[string]string{"auid": "alice", "uid": "alice", "gid": "staff", "euid": "www-data", "egid": "www", "suid": "www-data", "sgid": "staff"}
+		ks := make([]string, 0, len(want))
+		for k := range want {
+			ks = append(ks, k)
+		}
+		sort.Strings(ks)
+		for _, k := range ks {
+			if _, has := ev.User.IDs[k]; has {
+				vAssert(ev.User.Names[k] == want[k], label)
+			}
+		}
+	}
+	if vParam("mode", 0) == 0 {
+		// the package-level caches, filled through the exported Hardcode* functions, in either order
+		us := []user.User{{Uid: "1000", Username: "alice"}, {Uid: "33", Username: "www-data"}}
+		gs := []user.Group{{Gid: "1000", Name: "staff"}, {Gid: "33", Name: "www"}}
+		if vChoose("order", 2) == 0 {
+			HardcodeUsers(us...)
+			HardcodeGroups(gs...)
+		} else {
+			HardcodeGroups(gs...)
+			HardcodeUsers(us...)
+		}
+		ResolveIDs(e)
+		check(e, "C15/user-and-group-names-mixed-up")
+		return
+	}
+	// explicit caches against the stub database; optionally another event resolved first, or the
+	// same numbers looked up first in a pair of caches that has nothing to do with ours
+	users, groups := NewUserCache(1000000000*60), NewGroupCache(1000000000*60)
+	switch vChoose("before", 4) {
+	case 1:
+		groups.LookupID("1000")
+		users.LookupID("33")
+	case 2:
+		users.LookupID("1000")
+		groups.LookupID("33")
+	case 3:
+		u2, g2 := NewUserCache(1000000000*60), NewGroupCache(1000000000*60)
+		g2.LookupID("1000")
+		u2.LookupID("1000")
+		g2.LookupID("33")
+	}
+	ResolveIDsFromCaches(e, users, groups)
+	check(e, "C15/user-and-group-names-mixed-up")
 }
